@@ -4,8 +4,10 @@
      yowsup/layers/noise/layer.py          (protocol state: on_auth / on_disconnected)
      yowsup/layers/interface/interface.py  (reconnect flag, option)
      yowsup/layers/protocol_iq/layer.py    (ping thread, _pingQueue, iq registry of pings)
+     yowsup/layers/axolotl/layer_control.py + layer_base.py  (lifecycle part: PROP_PASSIVE, _unsent_prekeys,
+                                           set-keys upload after a passive login, _reboot_connection)
      yowsup/stacks/yowstack.py             (queue of deferred event continuations)
-   in the stack  network | P0 | segments | noise | coder | P1 | (auth, iq, P2) | interface | P3
+   in the stack  network | P0 | segments | noise | coder | P1 | control | (auth, iq, P2) | interface | P3
    where P0..P3 are probes that see every event passing their position, over a dispatcher with
    the contract of AsyncoreConnectionDispatcher (disconnect() closes and synchronously calls
    onDisconnected(), also when already closed).
@@ -23,7 +25,8 @@ Record cfg := mkCfg {
   c_passive : bool;        (* PROP_PASSIVE *)
   c_ping : bool;           (* PROP_PING_INTERVAL > 0 *)
   c_fix_create : bool;     (* createConnection ignores a request unless state = DISCONNECTED *)
-  c_fix_destroy : bool     (* destroyConnection ignores a request when state = DISCONNECTED *)
+  c_fix_destroy : bool;    (* destroyConnection ignores a request when state = DISCONNECTED *)
+  c_unsent : bool          (* the profile's store holds one-time prekeys that were never uploaded *)
 }.
 
 Record state := mkSt {
@@ -38,11 +41,17 @@ Record state := mkSt {
   pq : list N;             (* _pingQueue keys (ping ordinals) *)
   reg : list N;            (* ping ids in the iq layer's iqRegistry *)
   nping : N;               (* ordinal of the next ping entity *)
-  dq : list reason         (* YowStack.__detachedQueue: DISCONNECTED(reason) continuations above P0 *)
+  dq : list reason;        (* YowStack.__detachedQueue: DISCONNECTED(reason) continuations above P0 *)
+  psv : bool;              (* stack property PROP_PASSIVE (read by the auth layer at CONNECTED and at success) *)
+  um : bool;               (* AxolotlControlLayer._unsent_prekeys is non-empty *)
+  ud : bool;               (* the store has prekeys not marked as sent *)
+  rb : bool;               (* AxolotlControlLayer._reboot_connection *)
+  kp : bool                (* a set-keys iq sent on the current connection is unanswered *)
 }.
 
-Definition init : state :=
-  mkSt NsDisconnected false DpNone 0 RNone NzInit false false [] [] 0 [].
+Definition init (c : cfg) : state :=
+  mkSt NsDisconnected false DpNone 0 RNone NzInit false false [] [] 0 [] (c_passive c) false (c_unsent c)
+       false false.
 
 Inductive event :=
 | EConnectReq            (* stack.broadcastEvent(EVENT_STATE_CONNECT) *)
@@ -52,6 +61,7 @@ Inductive event :=
 | ESockError             (* dispatcher: onConnectionError *)
 | EPeerClose             (* dispatcher: onDisconnected (may be reported again) *)
 | ESuccess | EFailure | EStreamError (k : kind) | EPong (i : N)     (* stanzas from the peer *)
+| EKeysResult | EKeysError   (* the peer answers the set-keys iq of this connection: result / error *)
 | ETick                  (* one keep-alive interval elapses *)
 | EAppSend               (* application writes a stanza through the interface layer *)
 | ELoop.                 (* YowStack.loop runs one deferred callback *)
@@ -59,7 +69,7 @@ Inductive event :=
 Inductive pev :=
 | PConnect | PDisconnect (r : reason) | PConnected | PDisconnected (r : reason)
 | PAuth (passive : bool) | PAuthed (passive : bool).
-Inductive wr := WHeader | WPing (i : N) | WApp.
+Inductive wr := WHeader | WPing (i : N) | WApp | WKeys.
 Inductive appent := ASuccess | AFailure | AStreamError (k : kind) | APong (i : N).
 
 Inductive obs :=
@@ -87,15 +97,19 @@ Definition nonempty {A} (l : list A) : bool := match l with [] => false | _ => t
 
 (* ---------- state updates ---------- *)
 Definition set_net (s : state) (n : nstate) (c : bool) (d : dphase) (o : N) (r : reason) : state :=
-  mkSt n c d o r (nz s) (recon s) (pth s) (pq s) (reg s) (nping s) (dq s).
+  mkSt n c d o r (nz s) (recon s) (pth s) (pq s) (reg s) (nping s) (dq s) (psv s) (um s) (ud s) (rb s) (kp s).
 Definition set_nz (s : state) (z : nzstate) : state :=
-  mkSt (ns s) (conn s) (dp s) (orphans s) (rsn s) z (recon s) (pth s) (pq s) (reg s) (nping s) (dq s).
+  mkSt (ns s) (conn s) (dp s) (orphans s) (rsn s) z (recon s) (pth s) (pq s) (reg s) (nping s) (dq s) (psv s) (um s) (ud s) (rb s) (kp s).
 Definition set_recon (s : state) (b : bool) : state :=
-  mkSt (ns s) (conn s) (dp s) (orphans s) (rsn s) (nz s) b (pth s) (pq s) (reg s) (nping s) (dq s).
+  mkSt (ns s) (conn s) (dp s) (orphans s) (rsn s) (nz s) b (pth s) (pq s) (reg s) (nping s) (dq s) (psv s) (um s) (ud s) (rb s) (kp s).
 Definition set_ping (s : state) (t : bool) (q r : list N) (n : N) : state :=
-  mkSt (ns s) (conn s) (dp s) (orphans s) (rsn s) (nz s) (recon s) t q r n (dq s).
+  mkSt (ns s) (conn s) (dp s) (orphans s) (rsn s) (nz s) (recon s) t q r n (dq s) (psv s) (um s) (ud s) (rb s) (kp s).
 Definition set_dq (s : state) (q : list reason) : state :=
-  mkSt (ns s) (conn s) (dp s) (orphans s) (rsn s) (nz s) (recon s) (pth s) (pq s) (reg s) (nping s) q.
+  mkSt (ns s) (conn s) (dp s) (orphans s) (rsn s) (nz s) (recon s) (pth s) (pq s) (reg s) (nping s) q
+       (psv s) (um s) (ud s) (rb s) (kp s).
+Definition set_ctl (s : state) (p u d r k : bool) : state :=
+  mkSt (ns s) (conn s) (dp s) (orphans s) (rsn s) (nz s) (recon s) (pth s) (pq s) (reg s) (nping s) (dq s)
+       p u d r k.
 
 Definition res := (state * list obs)%type.
 Definition andthen (r : res) (f : state -> res) : res :=
@@ -144,6 +158,11 @@ Definition bcast_disconnect (c : cfg) (r : reason) (from_top : bool) (s : state)
    [OProbe 2 (PDisconnect r); OProbe 1 (PDisconnect r); OProbe 0 (PDisconnect r)])
   >>= destroy_connection c r.
 
+(* a DISCONNECT event broadcast by the axolotl control layer: broadcasts travel downwards only, so the
+   protocol group above it (auth, iq, P2) does not see it and the keep-alive thread is not stopped *)
+Definition bcast_disconnect_ctl (c : cfg) (r : reason) (s : state) : res :=
+  (s, [OProbe 1 (PDisconnect r); OProbe 0 (PDisconnect r)]) >>= destroy_connection c r.
+
 (* data written by a layer above the noise layer: needs the transport state *)
 Definition send_down (w : wr) (s : state) : res :=
   match nz s with
@@ -152,23 +171,43 @@ Definition send_down (w : wr) (s : state) : res :=
   end.
 
 (* ---------- the reactions ---------- *)
+(* CONNECTED travels upwards: P0, P1, the control layer (on_connected: level_prekeys, extend _unsent_prekeys
+   with the store's unsent keys, PROP_PASSIVE := True if any), then the auth layer broadcasts AUTH with the
+   property as it is now, ... *)
 Definition on_disp_connected (c : cfg) (s : state) : res :=
   let s1 := set_net s NsConnected true DpUp (orphans s) (rsn s) in
-  (s1, [OProbe 0 PConnected; OProbe 1 PConnected;
-        OProbe 2 (PAuth (c_passive c)); OProbe 1 (PAuth (c_passive c))])
+  (s1, [OProbe 0 PConnected; OProbe 1 PConnected])
+  >>= (fun s => let u := um s || ud s in (set_ctl s (psv s || u) u (ud s) (rb s) false, []))
+  >>= (fun s => (s, [OProbe 2 (PAuth (psv s)); OProbe 1 (PAuth (psv s))]))
   >>= net_send WHeader
   >>= (fun s => match nz s with
                 | NzHandshake => (s, [])
-                | _ => (set_nz s NzHandshake, [OHandshake (c_passive c)])
+                | _ => (set_nz s NzHandshake, [OHandshake (psv s)])
                 end)
-  >>= emit [OProbe 0 (PAuth (c_passive c)); OProbe 2 PConnected]
+  >>= (fun s => (s, [OProbe 0 (PAuth (psv s)); OProbe 2 PConnected]))
   >>= (fun s => (set_recon s false, [OProbe 3 PConnected])).
 
+(* success: the auth layer broadcasts AUTHED(passive = the property); the iq layer starts its thread; the
+   control layer, below the protocol group, gets the broadcast next: a passive login with keys waiting
+   uploads them (set-keys iq) and empties _unsent_prekeys *)
 Definition on_success (c : cfg) (s : state) : res :=
   let s1 := set_nz s NzTransport in
   let s2 := if negb (pth s1) && c_ping c then set_ping s1 true [] (reg s1) (nping s1) else s1 in
-  (s2, [OProbe 2 (PAuthed (c_passive c)); OProbe 1 (PAuthed (c_passive c));
-        OProbe 0 (PAuthed (c_passive c)); OApp ASuccess]).
+  (s2, [OProbe 2 (PAuthed (psv s2))])
+  >>= (fun s => if psv s && um s
+                then send_down WKeys (set_ctl s (psv s) false (ud s) (rb s) true)
+                else (s, []))
+  >>= (fun s => (s, [OProbe 1 (PAuthed (psv s)); OProbe 0 (PAuthed (psv s)); OApp ASuccess])).
+
+(* the result of the set-keys iq: set_prekeys_as_sent, _reboot_connection := True, DISCONNECT broadcast *)
+Definition on_keys_result (c : cfg) (s : state) : res :=
+  let s1 := set_nz s NzTransport in
+  (set_ctl s1 (psv s1) (um s1) false true false, []) >>= bcast_disconnect_ctl c RNone.
+
+(* its error: onSentKeysError raises; the registry entry is gone *)
+Definition on_keys_error (s : state) : res :=
+  let s1 := set_nz s NzTransport in
+  (set_ctl s1 (psv s1) (um s1) (ud s1) (rb s1) false, [ORaise]).
 
 Definition on_failure (c : cfg) (s : state) : res :=
   (set_nz s NzTransport, [OApp AFailure]) >>= bcast_disconnect c RAuthFail false.
@@ -196,14 +235,23 @@ Definition on_tick (c : cfg) (s : state) : res :=
                   else (s, []))
   else (s, []).
 
-Definition on_loop (c : cfg) (s : state) : res :=
+(* the loop delivers a queued DISCONNECTED to the layers above P0: noise (reset), P1, the control layer
+   (on_disconnected: with _reboot_connection set it clears it, sets PROP_PASSIVE False and calls connect()),
+   then - the control layer's callback returns None - the protocol group (iq stops its thread), the interface
+   layer (pending reconnect) and the application.  `consume` = the variant in which the control layer returns
+   True after a reboot, which stops the event there (not today's code; used for the refuted witness). *)
+Definition on_loop_gen (consume : bool) (c : cfg) (s : state) : res :=
   match dq s with
   | [] => (s, [])
   | r :: rest =>
-    let s1 := stop_thread (set_nz (set_dq s rest) NzInit) in
-    (s1, [OProbe 1 (PDisconnected r); OProbe 2 (PDisconnected r)])
-    >>= (fun s => if recon s then create_connection c (set_recon s false) else (s, []))
-    >>= emit [OProbe 3 (PDisconnected r)]
+    (set_nz (set_dq s rest) NzInit, [OProbe 1 (PDisconnected r)])
+    >>= (fun s =>
+      if rb s && consume then create_connection c (set_ctl s false (um s) (ud s) false (kp s))
+      else
+        (if rb s then create_connection c (set_ctl s false (um s) (ud s) false (kp s)) else (s, []))
+        >>= (fun s => (stop_thread s, [OProbe 2 (PDisconnected r)]))
+        >>= (fun s => if recon s then create_connection c (set_recon s false) else (s, []))
+        >>= emit [OProbe 3 (PDisconnected r)])
   end.
 
 Definition on_connect_req (c : cfg) (s : state) : res :=
@@ -213,7 +261,7 @@ Definition on_connect_req (c : cfg) (s : state) : res :=
 Definition on_close (s : state) : res :=
   net_on_disconnected (set_net s (ns s) (conn s) DpClosed (orphans s) (rsn s)).
 
-Definition step (c : cfg) (s : state) (e : event) : res :=
+Definition step_gen (consume : bool) (c : cfg) (s : state) (e : event) : res :=
   match e with
   | EConnectReq => on_connect_req c s
   | EConnectCall => create_connection c s
@@ -224,10 +272,14 @@ Definition step (c : cfg) (s : state) (e : event) : res :=
   | EFailure => on_failure c s
   | EStreamError k => on_stream_error c k s
   | EPong i => on_pong i s
+  | EKeysResult => on_keys_result c s
+  | EKeysError => on_keys_error s
   | ETick => on_tick c s
   | EAppSend => send_down WApp s
-  | ELoop => on_loop c s
+  | ELoop => on_loop_gen consume c s
   end.
+
+Definition step : cfg -> state -> event -> res := step_gen false.
 
 (* ---------- the property's alphabet (domain) ----------
    Environment: a dispatcher event needs a dispatcher in the right phase; a stanza needs a connected
@@ -250,6 +302,7 @@ Definition enabled (c : cfg) (s : state) (e : event) : bool :=
   | EDispConnected => match dp s with DpConnecting => true | _ => false end
   | ESockError | EPeerClose => match dp s with DpNone => false | _ => true end
   | ESuccess | EFailure | EStreamError _ | EPong _ => stanza_ok s
+  | EKeysResult | EKeysError => stanza_ok s && kp s
   | ETick =>
       c_fix_destroy c || negb (pth s && nonempty (pq s) && ns_eqb (ns s) NsDisconnected)
   | EAppSend => match nz s with NzTransport => true | _ => false end
@@ -270,13 +323,14 @@ Fixpoint exec (c : cfg) (s : state) (h : list event) : option (state * list obs)
     else None
   end.
 
-(* the same without the domain check (used for the refuted witnesses) *)
-Fixpoint exec_any (c : cfg) (s : state) (h : list event) : state * list obs :=
+(* the same without the domain check (used for the refuted witnesses), for either variant of the loop *)
+Fixpoint exec_any_gen (consume : bool) (c : cfg) (s : state) (h : list event) : state * list obs :=
   match h with
   | [] => (s, [])
-  | e :: h' => let '(s1, o1) := step c s e in
-               let '(s2, o2) := exec_any c s1 h' in (s2, o1 ++ o2)
+  | e :: h' => let '(s1, o1) := step_gen consume c s e in
+               let '(s2, o2) := exec_any_gen consume c s1 h' in (s2, o1 ++ o2)
   end.
+Definition exec_any : cfg -> state -> list event -> state * list obs := exec_any_gen false.
 
 (* ---------- trace monitors used in the statements ---------- *)
 Definition is_up_at (p : N) (o : obs) : bool :=
@@ -334,6 +388,10 @@ Definition is_raise (o : obs) : bool := match o with ORaise => true | _ => false
 Definition ev_disp_connected (e : event) : bool := match e with EDispConnected => true | _ => false end.
 Definition ev_success (e : event) : bool := match e with ESuccess => true | _ => false end.
 Definition ev_tick (e : event) : bool := match e with ETick => true | _ => false end.
+Definition ev_keys_result (e : event) : bool := match e with EKeysResult => true | _ => false end.
+Definition ev_keys_error (e : event) : bool := match e with EKeysError => true | _ => false end.
+Definition is_passive_login (o : obs) : bool :=
+  match o with OHandshake true | OProbe _ (PAuth true) => true | _ => false end.
 
 (* ---------- automatic reconnect: what the statements count ---------- *)
 Definition ev_connect (e : event) : bool :=
